@@ -387,6 +387,22 @@ class Flow:
         src = self.IN_entry[at] if loop_entry and at in self.IN_entry else self.IN[at]
         return [self.defs[i] for i in sorted(src.get(var, ()))]
 
+    def alternatives(self, term):
+        """The canonical terms of the definitions merged in a ('var', name, ids) term (a name with several reaching
+        definitions), or [term].  None when one of the definitions has no value term (augmented, deleted, unbound)."""
+        if not (isinstance(term, tuple) and term and term[0] == "var" and len(term) == 3 and term[2]):
+            return [term]
+        out = []
+        for i in term[2]:
+            d = self.defs[i]
+            if d.kind in ("assign", "walrus") and d.value is not None:
+                out.append(self._apply_path(self._canon(d.value, d.node, {}, (d.id,)), d.path))
+            elif d.kind == "param":
+                out.append(("param", d.var))
+            else:
+                return None
+        return out
+
     def possibly_unbound(self):
         """(name, ast Name node, cfg node id) for local reads that an 'unbound' or 'del'
         definition reaches."""
@@ -477,6 +493,22 @@ class Flow:
                 return ("sub", ("attr", c[2][1], "nodes"), ("sub", base, ("const", 0)))
             if c[0] == "call" and c[2][0] == "attr" and c[2][2] == "nodes" and c[3] == (("const", True),) and not c[4]:
                 return ("sub", ("attr", c[2][1], "nodes"), ("sub", base, ("const", 0)))
+            # ... and so is the value in `for n, attrs in G.nodes.items()`
+            if c[0] == "call" and c[2][0] == "attr" and c[2][2] == "items" and not c[3] and not c[4] and c[2][1][0] == "attr" and c[2][1][2] == "nodes":
+                return ("sub", c[2][1], ("sub", base, ("const", 0)))
+        # the data dict that `for a, b, data in G.edges(data=True)` yields is G.edges[(a, b)]
+        if base[0] == "iter" and key == ("const", 2):
+            c = base[2]
+            while c[0] == "call" and c[2] in (("builtin", "list"), ("builtin", "tuple")) and len(c[3]) == 1 and not c[4]:
+                c = c[3][0]
+            if c[0] == "call" and c[2][0] == "attr" and c[2][2] == "edges" and \
+                    ((not c[3] and c[4] == (("data", ("const", True)),)) or (c[3] == (("const", True),) and not c[4])):
+                return ("sub", ("attr", c[2][1], "edges"), ("tuple", (("sub", base, ("const", 0)), ("sub", base, ("const", 1)))))
+        # the i-th component of an element of itertools.product(A, B, ...) is an element of the i-th factor
+        if base[0] == "iter" and key[0] == "const" and isinstance(key[1], int) and not isinstance(key[1], bool):
+            c = base[2]
+            if c[0] == "call" and c[2] in (("ext", "itertools.product"),) and not c[4] and 0 <= key[1] < len(c[3]) and len(c[3]) >= 2:
+                return ("iter", base[1], c[3][key[1]])
         # X[a:][i] is X[a + i] for non-negative constants
         if base[0] == "sub" and base[2][0] == "slice" and key[0] == "const" and isinstance(key[1], int) and not isinstance(key[1], bool) and key[1] >= 0:
             lo, hi, step = base[2][1], base[2][2], base[2][3]
@@ -542,6 +574,70 @@ class Flow:
             if d.kind == "with":
                 return ("withvar", self._site(d.ast))
         return ("var", var, tuple(d.id for d in ds))
+
+    def diamond(self, term, at):
+        """A name with two reaching definitions that form `if c: x = a` / `else: x = b` (or `x = b` in front of a one-armed
+        if), read at cfg node `at` behind the if: the conditional expression `a if c else b`; None otherwise."""
+        if not (isinstance(term, tuple) and term and term[0] == "var" and len(term) == 3 and len(term[2]) == 2):
+            return None
+        live = [self.defs[i] for i in term[2]]
+        return self._diamond(term[1], live, at, ())
+
+    def _if_arm_of(self, d):
+        """(if cfg node, 'T'|'F') when definition d is a statement directly in an arm of an if statement."""
+        if d.ast is None:
+            return None
+        for n in self.cfg.nodes:
+            if n.kind != "if":
+                continue
+            if any(st is d.ast for st in n.ast.body):
+                return n, "T"
+            if any(st is d.ast for st in n.ast.orelse):
+                return n, "F"
+        return None
+
+    def _test_stable(self, ifnode, at):
+        for sub in iter_scope(ifnode.ast.test):
+            if isinstance(sub, ast.Name) and isinstance(sub.ctx, ast.Load) and sub.id in self.locals:
+                if self.IN[ifnode.id].get(sub.id, frozenset()) != self.IN[at].get(sub.id, frozenset()):
+                    return False
+        return True
+
+    def _diamond(self, var, live, at, stack):
+        """`if c: x = a` / `else: x = b` (or `x = b` in front of a one-armed if) read behind the if is `a if c else b`."""
+        if any(d.kind != "assign" or d.path or d.id in stack for d in live):
+            return None
+        a, b = live
+        ia, ib = self._if_arm_of(a), self._if_arm_of(b)
+        ifnode = None
+        if ia and ib and ia[0] is ib[0] and ia[1] != ib[1]:
+            ifnode = ia[0]
+            yes, no = (a, b) if ia[1] == "T" else (b, a)
+        elif ia and (not ib or ib[0] is not ia[0]) and self.cfg.dominates(b.node, ia[0].id) and b.node != ia[0].id:
+            ifnode = ia[0]
+            yes, no = (a, b) if ia[1] == "T" else (b, a)
+        elif ib and (not ia or ia[0] is not ib[0]) and self.cfg.dominates(a.node, ib[0].id) and a.node != ib[0].id:
+            ifnode = ib[0]
+            yes, no = (b, a) if ib[1] == "T" else (a, b)
+        if ifnode is None or not self.cfg.dominates(ifnode.id, at) or ifnode.id == at:
+            return None
+        if not self._test_stable(ifnode, at) or not self._stable(a, at) or not self._stable(b, at):
+            return None
+        # the defining statement must be the only definition of var in its arm
+        for d in live:
+            arm = self._if_arm_of(d)
+            if arm and arm[0] is ifnode:
+                stmts = ifnode.ast.body if arm[1] == "T" else ifnode.ast.orelse
+                n_defs = 0
+                for st in stmts:
+                    for sub in ast.walk(st):
+                        if isinstance(sub, ast.Name) and sub.id == var and isinstance(sub.ctx, (ast.Store, ast.Del)):
+                            n_defs += 1
+                if n_defs != 1:
+                    return None
+        st2 = stack + (a.id, b.id)
+        test = self._canon(ifnode.ast.test, ifnode.id, {}, st2)
+        return ("ifexp", test, self._canon(yes.value, yes.node, {}, st2), self._canon(no.value, no.node, {}, st2))
 
     def _canon(self, e, at, env, stack, loop_entry=False):
         c = lambda x: self._canon(x, at, env, stack, loop_entry)
